@@ -480,15 +480,19 @@ int _GD_FiniRawIO(DIRFILE *D, const gd_entry_t *E, int fragment, int flags)
       }
     }
 
-    /* close the file */
-    if ((E->e->u.raw.file[clotemp].idata >= 0) &&
-      (*_GD_ef[E->e->u.raw.file[clotemp].subenc].close)(E->e->u.raw.file +
-          clotemp))
-    {
-      if (D->error == GD_E_OK)
-        _GD_SetEncIOError(D, GD_E_IO_CLOSE, E->e->u.raw.file + clotemp);
-      dreturn("%i", 1);
-      return 1;
+    /* close the file -- an error closing a file which was only open for
+     * reading (e.g. a corrupt compressed stream) cannot lose anything and must
+     * not keep the caller from releasing the field */
+    if (E->e->u.raw.file[clotemp].idata >= 0) {
+      const int writing = E->e->u.raw.file[clotemp].mode & GD_FILE_WRITE;
+      if ((*_GD_ef[E->e->u.raw.file[clotemp].subenc].close)(E->e->u.raw.file +
+            clotemp) && writing)
+      {
+        if (D->error == GD_E_OK)
+          _GD_SetEncIOError(D, GD_E_IO_CLOSE, E->e->u.raw.file + clotemp);
+        dreturn("%i", 1);
+        return 1;
+      }
     }
   }
 
